@@ -78,7 +78,8 @@ RoundTrips(loc, v) ==
 ---------------------------------------------------------------------------
 (* routing of the request path: the server cleans the escaped path          *)
 (* (path.Clean) and matches it against the template segment by segment;    *)
-(* a template is a sequence of segments, each "lit" (bytes) or "ph" (name) *)
+(* a template is a sequence of segments [k |-> "lit", s |-> bytes, n |-> ""] *)
+(* or [k |-> "ph", s |-> <<>>, n |-> name]                                  *)
 RECURSIVE CleanSegs(_, _)
 CleanSegs(parts, acc) ==
   IF parts = <<>> THEN acc
@@ -88,7 +89,7 @@ CleanSegs(parts, acc) ==
        ELSE CleanSegs(Tail(parts), Append(acc, p))
 
 \* wire segments of a call: literals verbatim, placeholders replaced by the encoded value
-WireSegs(tmpl, vals) == [i \in 1..Len(tmpl) |-> IF tmpl[i].k = "lit" THEN tmpl[i].s ELSE Encode("path", vals[tmpl[i].s])]
+WireSegs(tmpl, vals) == [i \in 1..Len(tmpl) |-> IF tmpl[i].k = "lit" THEN tmpl[i].s ELSE Encode("path", vals[tmpl[i].n])]
 
 \* a wire segment can only be matched by a placeholder if it contains no separator
 Matches(tmpl, segs) ==
@@ -100,13 +101,14 @@ Routed(tmpl, vals) ==
   LET segs == CleanSegs(WireSegs(tmpl, vals), <<>>) IN
   IF Matches(tmpl, segs)
   THEN [found |-> TRUE,
-        params |-> [n \in {tmpl[i].s : i \in {j \in 1..Len(tmpl) : tmpl[j].k = "ph"}} |->
-                      LET i == CHOOSE j \in 1..Len(tmpl) : tmpl[j].k = "ph" /\ tmpl[j].s = n IN Decode("path", segs[i]).v]]
+        params |-> [n \in {tmpl[i].n : i \in {j \in 1..Len(tmpl) : tmpl[j].k = "ph"}} |->
+                      LET i == CHOOSE j \in 1..Len(tmpl) : tmpl[j].k = "ph" /\ tmpl[j].n = n IN Decode("path", segs[i]).v]]
   ELSE [found |-> FALSE, params |-> <<>>]
 
+NamesOf(tmpl) == {tmpl[i].n : i \in {j \in 1..Len(tmpl) : tmpl[j].k = "ph"}}
 PathAgrees(tmpl, vals) ==
-  (\A n \in DOMAIN vals : InScope("path", vals[n])) =>
-     LET r == Routed(tmpl, vals) IN r.found /\ r.params = vals
+  (\A n \in NamesOf(tmpl) : InScope("path", vals[n])) =>
+     LET r == Routed(tmpl, vals) IN r.found /\ \A n \in NamesOf(tmpl) : r.params[n] = vals[n]
 
 ---------------------------------------------------------------------------
 (* the way back: status, header fields, body                               *)
@@ -134,7 +136,7 @@ CallInScope(c)  == \A i \in 1..Len(c.params) : ParamInScope(c.params[i])
 Received(o, name) == LET idx == {i \in 1..Len(o.received) : o.received[i].name = name}
                      IN IF idx = {} THEN <<>> ELSE << o.received[CHOOSE i \in idx : TRUE].vs >>
 
-HdrSeen(o, k) == LET idx == {i \in 1..Len(o.seen.hdrs) : U!Index(<<0>>, 1) = 0 /\ o.seen.hdrs[i].k = k}
+HdrSeen(o, k) == LET idx == {i \in 1..Len(o.seen.hdrs) : o.seen.hdrs[i].k = k}
                  IN IF idx = {} THEN <<>> ELSE o.seen.hdrs[CHOOSE i \in idx : TRUE].vs
 
 RequestAgrees(c, o) ==
@@ -161,7 +163,12 @@ WhyExchange(c, o) ==
   ELSE IF o.handled_op # c.op THEN "other-operation-or-none-invoked"
   ELSE IF ~RequestAgrees(c, o)
        THEN LET i == CHOOSE j \in 1..Len(c.params) : Received(o, c.params[j].name) # << c.params[j].vs >>
-            IN "received-differs-" \o c.params[i].loc
+            IN CASE c.params[i].loc = "path"   -> "received-differs-path"
+                 [] c.params[i].loc = "query"  -> "received-differs-query"
+                 [] c.params[i].loc = "header" -> "received-differs-header"
+                 [] c.params[i].loc = "file"   -> "received-differs-file"
+                 [] c.params[i].loc = "body"   -> "received-differs-body"
+                 [] OTHER                      -> "received-differs-form"
   ELSE IF o.seen.code # o.handler.code THEN "status-differs"
   ELSE IF o.seen.body # o.handler.body THEN "response-body-differs"
   ELSE "response-header-differs"
